@@ -479,7 +479,8 @@ func c11BigRefusals(c *h.Ctx) error {
 		go func() { cn, _ := ln.Accept(); acc <- cn }()
 		tr := nbt.NewNBTTransport()
 		if err := tr.Connect(net.IPv4(127, 0, 0, 1), ln.Addr().(*net.TCPAddr).Port); err != nil {
-			return fmt.Errorf("connect: %v", err)
+			c.Fail("nbt.NBTTransport.Connect", "connect-error", fmt.Sprintf("Connect to a listening loopback port failed: %v", err), nil)
+			return nil
 		}
 		peer := <-acc
 		ln.Close()
@@ -549,7 +550,8 @@ func c11TCP(c *h.Ctx) error {
 		go func() { cn, _ := ln.Accept(); acc <- cn }()
 		tr := nbt.NewNBTTransport()
 		if err := tr.Connect(net.IPv4(127, 0, 0, 1), port); err != nil {
-			return fmt.Errorf("connect: %v", err)
+			c.Fail("nbt.NBTTransport.Connect", "connect-error", fmt.Sprintf("Connect to a listening loopback port failed: %v", err), nil)
+			return nil
 		}
 		peer := <-acc
 		ln.Close()
